@@ -29,6 +29,12 @@ Modes:
              call of another user; call_and_wait may get an unpicklable argument;
              'as_completed_contended': a second pool sharing the Worker objects
              probes acquire_by while the first pool's as_completed is running.
+
+Ownership is exclusive per SERVER ADDRESS: the ownership scenarios (E2 basic
+scenario and the E4 'cross_pool' operation) also build pools that differ in a
+client setting (call_timeout / max_parallelism / heartbeat_threshold_secs /
+iterate_batch_size) over the same addresses; the ownership log is keyed by the
+address, whatever Worker objects the pools hold for it.
 """
 
 from __future__ import annotations
@@ -57,7 +63,10 @@ RULE = (
     'normal and failing over pools of 1-3 workers each ok / absent / exited / busy (>= 1 ok), '
     'call_and_wait with an unpicklable argument, run() with every worker busy for longer than its '
     'give-up time (dilated clock), and as_completed (1-3 workers, parallelism 1-2, 1-5 timed tasks) '
-    'while a second pool probes acquire_by on the shared workers. Non-trivial = >= 2 threads touching one address / worker with >= 1 '
+    'while a second pool probes acquire_by on the shared workers; in the basic ownership scenario and in '
+    'cross_pool (two pools x next_idle_worker / _acquire_all / acquire_by over 1-3 live servers, then '
+    'release_all of the loser) a pool may differ from the others in one of call_timeout / max_parallelism / '
+    'heartbeat_threshold_secs / iterate_batch_size. Non-trivial = >= 2 threads touching one address / worker with >= 1 '
     'statement-level pre-emption (E2 modes), or a history with a late completion after an unregister '
     '(liveness); distinct = (history, schedule trace) hash')
 ASSUMPTIONS = [
@@ -69,6 +78,7 @@ ASSUMPTIONS = [
     'a busy worker is one with max_parallelism in-flight calls issued through the public Worker.submit by another user of the same Worker singleton (no pool owns it); an absent worker has no server and refuses connections; an exited worker was alive, then died and its death notice unregistered it',
     'blocking: a pool starts a blocking acquire only while it holds no worker (it calls release_all first), _acquire_all(blocking=True) waits in the worker order of the pool (the same for every pool), and every pool releases what it holds without waiting for anything else: no circular wait exists, so under a correct implementation every schedule terminates',
     'run_siblings: the transport is a stub; a call issued by run() is in flight until a controlled thread completes its future (any point of the schedule); time stands still (no give-up path); a probing pool releases with the ownership-checked release(pool) only; a worker counts as used by pool P between the hand-out of next_idle_worker to a run() of P and the end of that run(); a worker locked by pool Q while a run() of P != Q has a call in flight on it (or issues one) is reported',
+    'ownership is judged per server address: a pool believes it owns an address when acquire_by of ITS Worker object for that address returned True, until a release of that object frees its lock; pools with differing settings hold different Worker objects for one address (WorkerPool re-creates its workers with its own settings), the harness stubs the transport of every such object and replaces the ownership locks by counting locks preserving the aliasing the library built (objects that share a lock keep sharing one)',
     'as_completed_contended: the second pool only calls acquire_by / release(pool) on the shared workers; a worker counts as busy for the first pool strictly between the start and the end of the handler of one of its tasks (server side clock)',
 ]
 REQUIRED = ['registry_schedules', 'registry_mutations', 'liveness_queries', 'late_heartbeats',
@@ -78,7 +88,8 @@ REQUIRED = ['registry_schedules', 'registry_mutations', 'liveness_queries', 'lat
             'all_busy_cases', 'contended_cases', 'contended_acquire_probes',
             'exhausted_with_tasks_in_flight', 'blocking_schedules', 'blocking_acquires_that_waited',
             'run_sibling_schedules', 'pool_runs_completed', 'runs_handed_a_worker_in_use_by_a_sibling',
-            'probe_acquires']
+            'probe_acquires', 'ownership_differing_settings_schedules', 'cross_pool_cases',
+            'cross_pool_differing_settings_cases']
 # Mechanism keys of the audited root causes (classified by the scenario of the case).
 K_RUN_LEAK = 'pool-run-leaves-inspected-workers-acquired'
 K_CALL_LEAK = 'call-and-wait-leaks-workers-when-call-raises'
@@ -95,6 +106,12 @@ K_RUN_SIBLING = 'pool-run-releases-worker-of-sibling-run'
 # ... and that finally is the unconditional worker.release(): it frees the lock
 # that meanwhile belongs to another pool
 K_RUN_FOREIGN = 'pool-run-unconditional-release-frees-lock-of-other-pool'
+# the ownership lock (and the capacity bookkeeping) live on the Worker OBJECT, and Worker
+# objects are singletons per address AND per client setting: pools that differ in any
+# setting hold different objects for one server and both own it
+K_OWN_ADDR = 'ownership-keyed-by-worker-object-not-address'
+POOL_SETTINGS = [{'call_timeout': 600}, {'max_parallelism': 2}, {'heartbeat_threshold_secs': 400},
+                 {'iterate_batch_size': 4}]
 CHUNK_TIMEOUT_S = {'quick': 300, 'thorough': 3000}
 _uid = itertools.count()
 
@@ -587,24 +604,41 @@ def run_ownership_case(ctx, case):
   courier_utils._worker_registry = courier_utils.WorkerRegistry()  # pylint: disable=protected-access
   uid = next(_uid)
   n_w, n_p = case['workers'], len(case['pools'])
+  settings = case.get('settings') or [{} for _ in range(n_p)]
+  differing = any(settings)
   workers = []
   for i in range(n_w):
     addr = f'own_{uid}_{i}'
     w = courier_worker.Worker(addr)
-    w._client, w._heartbeat_client = StubClient(), StubClient()  # pylint: disable=protected-access
-    w._refresh_clients = lambda: None  # pylint: disable=protected-access
-    w._lock = c20lib.counting_lock()  # pylint: disable=protected-access
     courier_utils.worker_registry().register(addr, clock.now)  # alive
     workers.append(w)
-  pools = [courier_worker.WorkerPool(workers) for _ in range(n_p)]
-  # WorkerPool re-creates Worker objects through the singleton; make sure they are ours.
-  shared = all(pw is w for p in pools for pw, w in zip(p.all_workers, workers))
+  pools = [courier_worker.WorkerPool(workers, **settings[pi]) for pi in range(n_p)]
+  # WorkerPool re-creates Worker objects through the singleton: with its default
+  # settings they must be ours; a pool with other settings holds its own objects.
+  shared = all(pw is w for pi, p in enumerate(pools) if not settings[pi]
+               for pw, w in zip(p.all_workers, workers))
+  objs, lock_of, keep = [], {}, []
+  for w in workers + [pw for p in pools for pw in p.all_workers]:
+    if any(w is o for o in objs):
+      continue
+    objs.append(w)
+    w._client, w._heartbeat_client = StubClient(), StubClient()  # pylint: disable=protected-access
+    w._refresh_clients = lambda: None  # pylint: disable=protected-access
+    # counting locks, preserving the aliasing the library built between the objects
+    keep.append(w._lock)  # pylint: disable=protected-access
+    if id(w._lock) not in lock_of:  # pylint: disable=protected-access
+      lock_of[id(w._lock)] = c20lib.counting_lock()  # pylint: disable=protected-access
+    try:
+      w._lock = lock_of[id(w._lock)]  # pylint: disable=protected-access
+    except AttributeError:
+      shared = False
   sched = core.Scheduler(case['sched_seed'],
                          strategy='random' if blocking else case.get('strategy', 'random'),
                          p_sync=0.5, p_line=0.3, max_steps=60000)
   log = []
   belief = {i: set() for i in range(n_w)}   # worker index -> pools believing they own it
-  widx = {id(w): i for i, w in enumerate(workers)}
+  by_addr = {w.address: i for i, w in enumerate(workers)}
+  widx = {id(o): by_addr[o.address] for o in objs}     # ownership is per ADDRESS
   pidx = {id(p): i for i, p in enumerate(pools)}
   thread_pool = {}
   orig_release = courier_worker.Worker.release
@@ -664,6 +698,8 @@ def run_ownership_case(ctx, case):
   courier_worker.Worker.acquire_by = acquire_by
   try:
     def pool_thread(pi, ops):
+      # (the pool's own Worker objects: the same as `workers` for default settings)
+      workers = pools[pi].all_workers
       st = core.ACTIVE.me()
       thread_pool[st.idx] = pi
       p = pools[pi]
@@ -720,6 +756,8 @@ def run_ownership_case(ctx, case):
   if blocking:
     ctx.count('blocking_schedules')
     ctx.count('blocking_acquires_that_waited', waited[0])
+  if differing:
+    ctx.count('ownership_differing_settings_schedules')
   if sched.status == 'deadlock':
     mech = 'ownership:deadlock'
     holders = []
@@ -747,13 +785,22 @@ def run_ownership_case(ctx, case):
     ctx.violation('thread_error', case, {name: repr(e)}, mechanism='ownership:thread-error')
   for e in log:
     if e[0] == 'VIOLATION':
-      ctx.violation(e[1], case, {'event': e, 'log_tail': log[-25:]},
-                    mechanism='ownership:' + e[1])
+      mech = 'ownership:' + e[1]
+      detail = {'event': e, 'log_tail': log[-25:]}
+      if e[1] == 'two_owners' and any(settings[e[2]] != settings[o] for o in e[4]):
+        # Classified by the input class: the pools that own the address at the same
+        # time were built with different client settings.
+        mech = K_OWN_ADDR
+        detail.update(address_index=e[3], pool_settings=settings,
+                      pools_owning_the_address=sorted([e[2]] + list(e[4])),
+                      same_worker_object=pools[e[2]].all_workers[e[3]] is pools[e[4][0]].all_workers[e[3]])
+      ctx.violation(e[1], case, detail, mechanism=mech)
   for e in log:
     if e[0] == 'final' and e[2]:
       ctx.violation('pool_still_holds_workers_after_release_all', case, {'event': e},
                     mechanism='ownership:not-released')
-  for i, w in enumerate(workers):
+  for w in objs:
+    i = widx[id(w)]
     if w.is_locked() and not belief[i]:
       ctx.violation('locked_without_owner', case, {'worker': i, 'log_tail': log[-20:]},
                     mechanism='ownership:locked-without-owner')
@@ -776,6 +823,17 @@ def gen_ownership_case(rng):
       ops.append([k, rng.randrange(4)])
     pools.append(ops)
   return {'mode': 'ownership', 'workers': rng.randint(2, 4), 'pools': pools}
+
+
+def with_differing_settings(case, rng):
+  """Basic ownership scenario: 1 .. n-1 pools are built with one differing client setting."""
+  if case.get('scenario'):
+    return case
+  n_p = len(case['pools'])
+  settings = [{} for _ in range(n_p)]
+  for pi in rng.sample(range(n_p), rng.randint(1, n_p - 1)):
+    settings[pi] = dict(rng.choice(POOL_SETTINGS))
+  return dict(case, settings=settings)
 
 
 def gen_blocking_case(rng):
@@ -1123,9 +1181,90 @@ def _unreachable(sim, server):
   sim.refusing.add(server.address)
 
 
+def gen_cross_pool_case(rng, differing=None):
+  if differing is None:
+    differing = rng.random() < 0.7
+  acts = [rng.choice(['next_idle', 'next_idle', 'acquire_all', 'acquire_by']) for _ in range(2)]
+  return {'mode': 'poolops', 'op': 'cross_pool', 'W': rng.randint(1, 3), 'fail': False,
+          'acts': acts, 'first': rng.randrange(2),
+          'settings': [{}, dict(rng.choice(POOL_SETTINGS)) if differing else {}]}
+
+
+def run_cross_pool_case(ctx, case):
+  """Two pools over the same live servers acquire workers one after the other."""
+  from vlib import cwork
+  cwork.setup(scale=1.0)
+  from ml_metrics._src.chainables import courier_worker
+  W, settings = case['W'], case['settings']
+  differing = settings[0] != settings[1]
+  servers = cwork.start_servers(W, 'c20x')
+  try:
+    addrs = [s.address for s in servers]
+    pools = [courier_worker.WorkerPool(addrs, **dict({'call_timeout': 30}, **settings[pi]))
+             for pi in range(2)]
+    for p in pools:
+      p.wait_until_alive(deadline_secs=60, minimum_num_workers=W)
+    ctx.count('poolops_cases')
+    ctx.count('cross_pool_cases')
+    if differing:
+      ctx.count('cross_pool_differing_settings_cases')
+    ctx.case(('poolops', case), True)
+    if any(len(p.workers) < W for p in pools):
+      ctx.inconclusive_case('workers did not come up', case)
+      return
+
+    def act(pi):
+      p, a = pools[pi], case['acts'][pi]
+      if a == 'next_idle':
+        p.next_idle_worker(maybe_acquire=True)
+      elif a == 'acquire_all':
+        p._acquire_all()  # pylint: disable=protected-access
+      else:
+        for w in p.all_workers:
+          w.acquire_by(p)
+
+    def owners():
+      return {a: [pi for pi, p in enumerate(pools)
+                  if a in [w.address for w in p.acquired_workers]] for a in addrs}
+
+    order = [case['first'], 1 - case['first']]
+    act(order[0])
+    after_first = owners()
+    act(order[1])
+    own = owners()
+    both = sorted(a for a, ps in own.items() if len(ps) > 1)
+    if both:
+      ctx.violation(
+          'two_owners', case,
+          {'addresses_owned_by_both_pools': [addrs.index(a) for a in both], 'pool_settings': settings,
+           'same_worker_object': [pools[0].all_workers[addrs.index(a)] is pools[1].all_workers[addrs.index(a)]
+                                  for a in both]},
+          mechanism=K_OWN_ADDR if differing else 'poolops:cross_pool:two-owners')
+    else:
+      # a pool can only release what it owns: the second pool releases everything it can
+      pools[order[1]].release_all()
+      still = owners()
+      lost = sorted(addrs.index(a) for a, ps in after_first.items()
+                    if order[0] in ps and order[0] not in still[a])
+      if lost:
+        ctx.violation('release_by_non_owner', case, {'addresses': lost, 'pool_settings': settings},
+                      mechanism='poolops:cross_pool:release-by-non-owner')
+    for p in pools:
+      p.release_all()
+    held = {pi: sorted(addrs.index(w.address) for w in p.all_workers if w.is_locked())
+            for pi, p in enumerate(pools)}
+    if any(held.values()):
+      ctx.violation('workers_not_released', case, {'locked': held},
+                    mechanism='poolops:cross_pool:not-released-after-return')
+  finally:
+    cwork.stop_servers(servers, join_s=0.5)
+
+
 def run_poolops_case(ctx, case):
   if case.get('op') == 'as_completed_contended':
     return run_contended_case(ctx, case)
+  if case.get('op') == 'cross_pool':
+    return run_cross_pool_case(ctx, case)
   import courier
   from vlib import c16lib, c20lib, cwork
   all_busy = case['op'] == 'run_all_busy'
@@ -1387,8 +1526,20 @@ def run_chunk(ctx, spec):
   mode = spec['mode']
   n_sched = 1 if mode in ('liveness', 'poolops') else 6
   n_cfg = max(1, spec['n'] // n_sched)
+  # (own generator: the cases drawn from rng stay what they were)
+  rng4 = random.Random(spec['rseed'] * 1000003 + spec['chunk'] * 17 + 9)
+  if mode == 'poolops':
+    # ownership per server address over the real pool operations (every poolops chunk)
+    run_cross_pool_case(ctx, gen_cross_pool_case(rng4, differing=True))
+    for _ in range(max(2, n_cfg // 4)):
+      run_cross_pool_case(ctx, gen_cross_pool_case(rng4))
+  forced = False
   for _ in range(n_cfg):
     case = _GEN[mode](rng)
+    if mode == 'ownership' and not case.get('scenario') and (not forced or rng4.random() < 0.3):
+      # pools that differ in one client setting (at least once in every ownership chunk)
+      case = with_differing_settings(case, rng4)
+      forced = True
     for j in range(n_sched):
       c = dict(case)
       if mode in ('registry', 'ownership'):
